@@ -3,6 +3,8 @@ import RimeModel.Session.Api
 import RimeModel.Session.Compose
 import RimeModel.Session.PunctCompose
 import RimeModel.Session.Shape
+import RimeModel.Session.RecogCompose
+import RimeModel.Session.RecogPattern
 import RimeModel.C16.Model
 /-! Line-protocol driver for M-session (same protocol as harness/session_harness.cc). -/
 open RimeModel RimeModel.Session
@@ -38,8 +40,8 @@ def dedupByText : List Cand → List Bytes → List Cand
   | c :: cs, seen => if seen.contains c.text then dedupByText cs seen else c :: dedupByText cs (c.text :: seen)
 
 /-- vt_translator: rows of T[p] for every non-empty prefix p of the segment input, longest first -/
-def vtTranslate (table : List (Bytes × Row)) (uniq : Bool) (inp : Bytes) (g : Seg) : List Cand :=
-  if !g.tags.abc then [] else
+def vtTranslate (table : List (Bytes × Row)) (uniq : Bool) (inp : Bytes) (g : Seg) (tag : String := "abc") : List Cand :=
+  if !g.tags.has tag then [] else
   let lens := (List.range inp.length).reverse.map (· + 1)
   let all := lens.flatMap (fun n =>
     (table.filter (fun r => r.1 == inp.take n)).map (fun r =>
@@ -55,7 +57,7 @@ def parseProc (s : String) : Proc :=
   match s with
   | "speller" => .speller | "selector" => .selector | "navigator" => .navigator
   | "express_editor" => .expressEditor | "fluid_editor" => .fluidEditor | "punctuator" => .punctuator
-  | "key_binder" => .keyBinder | "ascii_composer" => .asciiComposer | _ => .other
+  | "key_binder" => .keyBinder | "ascii_composer" => .asciiComposer | "recognizer" => .recognizer | _ => .other
 
 /-- `ascii_composer/switch_key` as loaded: `<keycode>:<style>;…` with style i = inline_ascii, t = commit_text,
 c = commit_code, x = clear (noop entries are not loaded and not listed); `-` = none -/
@@ -143,6 +145,69 @@ def parsePunctEntry (e : String) : Option (UInt8 × PunctDef) :=
 def parsePunctMap (s : String) : Option (List (UInt8 × PunctDef)) :=
   if s == "-" || s == "" then some [] else (s.splitOn ";").mapM parsePunctEntry
 
+/-! the recognizer family: patterns (the class of Session/RecogPattern.lean), affix segmentors, segmentor list -/
+
+def hexPairs : Bytes → Option (List (UInt8 × UInt8))
+  | [] => some []
+  | a :: b :: rest => (hexPairs rest).map (fun l => (a, b) :: l)
+  | _ => none
+
+/-- one item `<q><ranges hex>`: q = o (exactly one), q (`?`), s (`*`), p (`+`); ranges = lo hi pairs, at least one, lo ≤ hi -/
+def parsePItem (e : String) : Option PItem := do
+  let q : Quant ← match (e.take 1).toString with
+    | "o" => some .one | "q" => some .opt | "s" => some .star | "p" => some .plus | _ => none
+  let bs ← Hex.decode (e.drop 1).toString
+  let rs ← hexPairs bs
+  if rs.isEmpty || rs.any (fun r => decide (r.2 < r.1)) then none else pure { ranges := rs, quant := q }
+
+/-- one pattern `<name hex>/<S|U><E|N>/<item>,<item>…`: S = `^`, U = not anchored at the start; E = `$`, N = not anchored at
+the end.  A pattern that is not in the class has no such description: the entry does not parse and the schema is refused. -/
+def parseRecPattern (e : String) : Option (String × Pattern) :=
+  match e.splitOn "/" with
+  | [n, anch, items] => do
+    let n ← hexStr n
+    let (a, z) ← match anch with
+      | "SE" => some (true, true) | "SN" => some (true, false) | "UE" => some (false, true) | "UN" => some (false, false) | _ => none
+    let its ← (items.splitOn ",").mapM parsePItem
+    pure (n, { anchoredStart := a, items := its, anchoredEnd := z })
+  | _ => none
+
+/-- insertion into a list sorted by name (std::map order; a later entry with the same name cannot occur in a YAML map) -/
+def insertByName (e : String × Pattern) : List (String × Pattern) → List (String × Pattern)
+  | [] => [e]
+  | x :: rest => if e.1 < x.1 then e :: x :: rest else x :: insertByName e rest
+
+def parseRecPatterns (s : String) : Option (List RecPattern) :=
+  if s == "-" || s == "" then some [] else do
+    let ps ← (s.splitOn ";").mapM parseRecPattern
+    let sorted := ps.foldl (fun acc e => insertByName e acc) []
+    pure (sorted.map (fun e => { tag := e.1, search := e.2.search }))
+
+/-- one affix segmentor `<tag hex>/<prefix hex>/<suffix hex>/<tips hex>/<closing tips hex>/<extra tag hex>,…` (`-` = empty) -/
+def parseAffix (e : String) : Option AffixCfg :=
+  match e.splitOn "/" with
+  | [t, p, sf, tips, ctips, ex] => do
+    let t ← hexStr t
+    let p ← if p == "-" then some [] else Hex.decode p
+    let sf ← if sf == "-" then some [] else Hex.decode sf
+    let tips ← if tips == "-" then some [] else Hex.decode tips
+    let ctips ← if ctips == "-" then some [] else Hex.decode ctips
+    let ex ← if ex == "-" then some [] else (ex.splitOn ",").mapM hexStr
+    pure { tag := t, prefix_ := p, suffix := sf, tips := tips, closingTips := ctips, extraTags := ex }
+  | _ => none
+
+def parseAffixes (s : String) : Option (List AffixCfg) :=
+  if s == "-" || s == "" then some [] else (s.splitOn ";").mapM parseAffix
+
+/-- `engine/segmentors`: ascii, matcher, abc, punct, fallback, affix.<index into the affix list> -/
+def parseSegmentors (s : String) (affixes : List AffixCfg) : Option (List Sgm) :=
+  (s.splitOn ",").mapM (fun w => match w with
+    | "ascii" => some Sgm.ascii | "matcher" => some .matcher | "abc" => some .abc | "punct" => some .punct
+    | "fallback" => some .fallback
+    | _ => match w.splitOn "." with
+      | ["affix", i] => do let i ← i.toNat?; let a ← affixes[i]?; pure (.affix a)
+      | _ => none)
+
 /-- the schema in the environment of one value of `full_shape` (see Session/Shape.lean) -/
 def mkSchema (st : DState) (id : String) (full : Bool := false) : Option SchemaCfg :=
   match st.schemas.find? (·.1 == id) with
@@ -170,6 +235,21 @@ def mkSchema (st : DState) (id : String) (full : Bool := false) : Option SchemaC
       let scfg : SegCfg := { alphabet := alphabet, initials := initials, finals := hexD (kv kvs "finals"),
                              delimiters := hexD (kv kvs "delimiters"), translate := vtTranslate st.table (uniq && !hasPunct) }
       let pcfg : PSegCfg := { scfg with punct := pc.mapping full, filter := if uniq then (fun l => dedupByText l []) else (fun l => l) }
+      -- the recognizer family (`segmentors=` present): patterns, affix segmentors, segmentor list, the tags of the vt translators
+      let isRec := kv kvs "segmentors" != ""
+      match parseRecPatterns (kv kvs "rec"), parseAffixes (kv kvs "affix") with
+      | none, _ => none
+      | _, none => none
+      | some pats, some affixes =>
+      match (if isRec then parseSegmentors (kv kvs "segmentors") affixes else some []),
+            (if kv kvs "vtTags" == "" then some ["abc"] else ((kv kvs "vtTags").splitOn ",").mapM hexStr) with
+      | none, _ => none
+      | _, none => none
+      | some sgms, some vtTags =>
+      -- outside the driver: a recognizer whose patterns the schema's matcher would not see, or the other way round, is
+      -- not distinguished (both read `recognizer/patterns`); translators: one vt_translator per tag, concatenated in order
+      let rtr : Bytes → Seg → List Cand := fun inp g => vtTags.flatMap (fun t => vtTranslate st.table false inp g t)
+      let rcfg : RSegCfg := { pcfg with translate := rtr, patterns := pats, segmentors := sgms }
       let env : Env := {
         pageSize := (kv kvs "pageSize").toNat?.getD 5, selectKeys := hexD (kv kvs "selectKeys"),
         pageDownCycle := kv kvs "pageDownCycle" == "1", alphabet := alphabet, initials := initials,
@@ -180,7 +260,8 @@ def mkSchema (st : DState) (id : String) (full : Bool := false) : Option SchemaC
         processors := procs, punct := pc, bindings := bindings, switches := switches,
         asciiKeys := asciiKeys, goodOldCapsLock := kv kvs "goodOldCaps" == "1",
         format := if full then shapeFormat else (fun t => t),
-        recompose := if hasPunct then composeP pcfg else compose scfg }
+        recPatterns := pats, recUseSpace := kv kvs "recUseSpace" == "1",
+        recompose := if isRec then composeR rcfg else if hasPunct then composeP pcfg else compose scfg }
       some { id := id, env := env, uniq := uniq, express := procs.contains .expressEditor }
     | _, _, _, _, _ => none
 
@@ -190,6 +271,9 @@ def showTags (t : Tags) : String :=
   let s := (if t.abc then "a" else "") ++ (if t.raw then "r" else "") ++ (if t.partial_ then "p" else "") ++
     (if t.paging then "g" else "") ++ (if t.selectedBeforeEditing then "e" else "") ++ (if t.phony then "h" else "") ++
     (if t.placeholder then "l" else "") ++ (if t.punct then "u" else "")
+  -- every other tag, sorted by name: `+` and the bytes of the name in decimal, joined by `.`
+  let ex := (t.extra.toArray.qsort (· < ·)).toList.map (fun n => "+" ++ String.intercalate "." (n.toUTF8.toList.map (fun b => toString b.toNat)))
+  let s := s ++ String.join ex
   if s == "" then "0" else s
 
 /-- the segment list itself: `|composition input|:` then start-end-length-status-selected_index-tags per segment -/
@@ -230,7 +314,9 @@ def freshCtx (sc : SchemaCfg) (old : Option Ctx) : Ctx :=
   let buf := match old with | some c => c.commitBuf | none => []
   let hasEditor := sc.env.processors.contains .expressEditor || sc.env.processors.contains .fluidEditor
   -- components are created first (Editor's constructor sets _auto_commit), then ConcreteEngine::InitializeOptions
-  swInitOptions sc.env.switches { options := (if hasEditor then [("_auto_commit", sc.express)] else []) ++ keep, commitBuf := buf }
+  let c := swInitOptions sc.env.switches { options := (if hasEditor then [("_auto_commit", sc.express)] else []) ++ keep, commitBuf := buf }
+  -- the ghost copy of `ascii_mode` the ascii segmentor reads (Comp.ascii): the option survives a schema change
+  { c with comp := { c.comp with ascii := c.getOption "ascii_mode" } }
 
 def toMask (n : Int) : Nat := if n < 0 then (n + 4294967296).toNat else n.toNat
 
